@@ -187,6 +187,13 @@ func doMatchIn(expression *grammar.MatchExpression, value reflect.Value) (bool, 
 
 func doMatchIsEmpty(matcher *grammar.MatchExpression, value reflect.Value) (bool, error) {
 	// NOTE: see preconditions in evaluategrammar.MatchExpressionRecurse
+	switch value.Kind() {
+	case reflect.Array, reflect.Chan, reflect.Map, reflect.Slice, reflect.String:
+	default:
+		// reflect.Value.Len panics for every other kind (including the
+		// invalid Value of a nil datum)
+		return false, fmt.Errorf("Cannot perform is empty operations on type %s for selector: %q", value.Kind(), matcher.Selector)
+	}
 	return value.Len() == 0, nil
 }
 
